@@ -58,6 +58,11 @@ def templates(T):
         ('expire', (), {}),
         ('set', ('j', 7), {'expire': -1.5, 'tag': 't'}),
         ('evict', ('t',), {}),
+        # calls that remove the expired rows they come across on their way (also when they end up finding nothing)
+        ('peekitem', (), {'last': True}),
+        ('peekitem', (), {'last': False, 'expire_time': True}),
+        ('push', (big,), {'expire': gen.ttl_exact(0.5)}),
+        ('pull', (), {'side': 'back'}),
     ]
 
 
